@@ -11,7 +11,7 @@ import pickle
 import numpy as np
 
 from . import data as D
-from .env import ClockReadCap, Env, is_injected, new_stats
+from .env import ClockReadCap, Env, InjectedInterrupt, InjectedMemoryError, is_injected, new_stats
 from .refmodels import (
     FPSReference,
     fps_tau,
@@ -63,6 +63,8 @@ class FitRecord:
         try:
             ns = int(o.n_selected_)
             idx = np.array(o.selected_idx_[:ns], dtype=int, copy=True)
+        except InjectedMemoryError:
+            raise
         except Exception:  # noqa: BLE001
             return
         table = None
@@ -70,6 +72,8 @@ class FitRecord:
         if gd is not None:
             try:
                 table = np.array(gd(), dtype=float, copy=True)
+            except InjectedMemoryError:
+                raise
             except Exception:  # noqa: BLE001
                 table = None
         self.steps.append((ns, idx, table))
@@ -393,15 +397,26 @@ class SelectorWorld:
         self._cur = rec
         self.env.progress.on_step = rec.on_step
         n_before = int(getattr(obj, "n_selected_", 0) or 0) if warm else 0
+        itr = (op.get("env") or {}).get("interrupt")
         try:
-            with self.env.op(op.get("env")) as out:
+            with self.env.op({k: v for k, v in (op.get("env") or {}).items() if k != "interrupt"} or None) as out:
                 try:
-                    if warm:
+                    if itr:
+                        # crash point: KeyboardInterrupt / MemoryError at the k-th skmatter line
+                        # event of this fit; the partially fitted object stays in the process
+                        excs = {"KeyboardInterrupt": InjectedInterrupt, "MemoryError": InjectedMemoryError}[itr["exc"]]
+                        with self.env.interrupter.armed(int(itr["at"]), excs) as arm:
+                            ret = obj.fit(X, y, warm_start=True) if warm else obj.fit(X, y)
+                        if not arm.fired:
+                            self.count("interrupt_not_reached")
+                    elif warm:
                         ret = obj.fit(X, y, warm_start=True)
                     else:
                         ret = obj.fit(X, y)
                     rec.ret_is_self = ret is obj
                 except ClockReadCap as e:
+                    rec.exc = e
+                except (InjectedInterrupt, InjectedMemoryError) as e:
                     rec.exc = e
                 except Exception as e:  # noqa: BLE001
                     rec.exc = e
@@ -425,10 +440,18 @@ class SelectorWorld:
         if rec.exc is not None:
             self.count("fits_raised")
             self.log.add("FIT", name, warm, "raise", type(rec.exc).__name__)
-            self.after_failed_fit(name, obj, m, op, rec)
+            if is_injected(rec.exc):
+                # the injected fault itself: a legitimately failed operation
+                self.count("fits_failed_by_injected_fault")
+                self.probe("fault_landed_inside_fit")
+                m["after_crash"] = True
+            else:
+                self.after_failed_fit(name, obj, m, op, rec)
             # state of a failed fit is unspecified: a later warm start is out of scope
             m["retired_for_warm"] = True
             return
+        if m.pop("after_crash", False):
+            self.probe("cold_fit_after_crashed_fit")
         m["retired_for_warm"] = False
         m["retired_reason"] = None
         self.count("fits_ok")
